@@ -560,6 +560,8 @@ class Explorer:
         rv = {}
         for i_, a_ in enumerate(args):
             aa = strip_upd(a_)
+            while aa[0] == 'cast':          # `&[a, b]` coerced to a slice
+                aa = strip_upd(aa[2])
             if aa[0] == 'ref' and aa[1][0][0] == 'loc':
                 try:
                     rv[i_] = self.load(st, fr, aa[1])
